@@ -7,7 +7,7 @@ From Coq Require Import Reals.
 From Coquelicot Require Import Coquelicot.
 From OV.base Require Import Num.
 From OV.model Require Import M_C08 M_C08b.
-From OV.proofs Require Import L_C08 L_C08b.
+From OV.proofs Require Import L_C08 L_C08b L_C08c.
 Local Open Scope R_scope.
 Notation M := (mat R).
 
@@ -141,11 +141,56 @@ Theorem C08_rest_stress_viscoelastic_equilibrium : forall p D, is_derive (fun t 
 Proof. exact hveq_rest_stress. Qed.
 Theorem C08_rest_stress_j2_small : forall p eqps D, is_derive (fun t => E_j2_linear p eqps mzero (mscal t D)) 0 0.
 Proof. exact j2_linear_rest_stress. Qed.
-(* NOT PROVED: zero stress at rest for the options that go through log_sqrt_symm (logarithmic strain of LinearElastic, J2,
-   phase field, the non-equilibrium viscoelastic branches): it needs differentiability of the spectral function at the identity,
-   which is C12's subject; the energies are quadratic in a strain that vanishes at rest.  Checked on jax.grad of the implementation.
-   NOT PROVED: symmetry of the Kirchhoff stress tau = dW/dF F^T as a derivative statement for each energy; only the algebraic
-   form below, and jax.grad symmetry checks on the implementation. *)
+(* zero stress at rest for the options that go through log_sqrt_symm, under LogSqrtSpec (value 0 at I) and LogSqrtDiffAtId:
+   log_sqrt_symm is differentiable at the identity with derivative 1/2 sym, in the form "for every differentiable curve C of symmetric
+   matrices with C 0 = I, t |-> lss (C t) is (component-wise) differentiable at 0 with derivative C'/2" (mderive = the nine component
+   derivatives).  Both are hypotheses on the un-modelled spectral function (C12's subject); the harness checks them on
+   TensorMath.log_sqrt_symm (jax.jvp at I and difference quotients along C(t) = (I+tD)^T (I+tD)). *)
+Theorem C08_rest_stress_linear_elastic_logarithmic : forall lss, LogSqrtSpec lss -> LogSqrtDiffAtId lss ->
+  forall D p, is_derive (fun t => E_le_log lss p (mscal t D)) 0 0.
+Proof. exact le_log_rest_stress. Qed.
+Theorem C08_rest_stress_j2_logarithmic : forall lss, LogSqrtSpec lss -> LogSqrtDiffAtId lss ->
+  forall D p eqps, is_derive (fun t => E_j2_log lss p eqps mid (mscal t D)) 0 0.
+Proof. exact j2_log_rest_stress. Qed.
+Theorem C08_rest_stress_phasefield_logarithmic : forall lss, LogSqrtSpec lss -> LogSqrtDiffAtId lss ->
+  forall D p g0 g1 g2, is_derive (fun t => E_pf_log lss p 0 g0 g1 g2 (mscal t D)) 0 0.
+Proof. exact pf_log_rest_stress. Qed.
+(* the complete incremental energies (equilibrium + non-equilibrium + dt * dissipation potential), virgin viscous state *)
+Theorem C08_rest_stress_hyperviscoelastic : forall lss, LogSqrtSpec lss -> LogSqrtDiffAtId lss ->
+  forall D p dt, 0 < dt -> (let '(_, _, _, tau) := p in 0 < tau) -> is_derive (fun t => E_hv lss p mid dt (mscal t D)) 0 0.
+Proof. exact hv_rest_stress. Qed.
+Theorem C08_rest_stress_multibranch : forall lss, LogSqrtSpec lss -> LogSqrtDiffAtId lss ->
+  forall D p dt, 0 < dt -> mb_taus_pos p -> is_derive (fun t => E_mb lss p mid mid mid dt (mscal t D)) 0 0.
+Proof. exact mb_rest_stress. Qed.
+(* NOT PROVED: zero stress at rest of J2 'seth hill' (needs the analogous hypothesis on pow_symm at the identity; same argument);
+   zero stress at rest of the phase-field model for phase <> 0 (not a rest state: the energy is not zero there either).
+
+   Kirchhoff stress as a derivative statement, closed-form models: for every H with det F > 0 the explicit first Piola-Kirchhoff tensor
+   P (P_neo_coupled, P_adagio, P_gent, P_le_gl: 2 dpsi/dI1 F + dpsi/dJ cof F, resp. F S) is the derivative of the energy
+   (d/dt W(H + t D) at 0 = P : D for every direction D) and tau = P F^T is symmetric. *)
+Theorem C08_kirchhoff_symmetric_neohookean_coupled : forall p H, 0 < JJ H ->
+  (forall D, is_derive (fun t => E_neo_coupled p (madd H (mscal t D))) 0 (mddot (P_neo_coupled p H) D))
+  /\ msym (mmul (P_neo_coupled p H) (mtr (defgrad H))).
+Proof. exact neo_coupled_kirchhoff. Qed.
+Theorem C08_kirchhoff_symmetric_neohookean_adagio : forall p H, 0 < JJ H -> let '(_, _, mu, kappa, _) := p in
+  (forall D, is_derive (fun t => E_neo_adagio p (madd H (mscal t D))) 0 (mddot (P_adagio kappa mu H) D))
+  /\ msym (mmul (P_adagio kappa mu H) (mtr (defgrad H))).
+Proof. exact neo_adagio_kirchhoff. Qed.
+Theorem C08_kirchhoff_symmetric_gent : forall p H, 0 < JJ H -> (let '(_, _, Jm) := p in Jm <> 0 /\ 0 < gent_u Jm (I1 H) (JJ H)) ->
+  (forall D, is_derive (fun t => E_gent p (madd H (mscal t D))) 0 (mddot (P_gent p H) D)) /\ msym (mmul (P_gent p H) (mtr (defgrad H))).
+Proof. exact gent_kirchhoff. Qed.
+Theorem C08_kirchhoff_symmetric_viscoelastic_equilibrium : forall p H, 0 < JJ H -> let '(K, G, _, _) := p in
+  (forall D, is_derive (fun t => E_hv_eq p (madd H (mscal t D))) 0 (mddot (P_adagio K G H) D)) /\ msym (mmul (P_adagio K G H) (mtr (defgrad H))).
+Proof. exact hveq_kirchhoff. Qed.
+Theorem C08_kirchhoff_symmetric_multibranch_equilibrium : forall p H, 0 < JJ H -> let '(K, G, _, _, _, _, _, _) := p in
+  (forall D, is_derive (fun t => E_mb_eq p (madd H (mscal t D))) 0 (mddot (P_adagio K G H) D)) /\ msym (mmul (P_adagio K G H) (mtr (defgrad H))).
+Proof. exact mbeq_kirchhoff. Qed.
+Theorem C08_kirchhoff_symmetric_linear_elastic_green_lagrange : forall p H,
+  (forall D, is_derive (fun t => E_le_gl p (madd H (mscal t D))) 0 (mddot (P_le_gl p H) D)) /\ msym (mmul (P_le_gl p H) (mtr (defgrad H))).
+Proof. exact le_gl_kirchhoff. Qed.
+(* NOT PROVED: Kirchhoff-stress symmetry as a derivative statement for the models that go through log_sqrt_symm / pow_symm (it needs
+   differentiability of the spectral function at EVERY symmetric positive definite argument together with the equivariance of its
+   derivative -- C12's subject); for those only the algebraic form below and the jax.grad symmetry checks on the implementation. *)
 Theorem C08_kirchhoff_symmetric_form_partial : forall F S : M, msym S -> msym (mscal 2 (mmul F (mmul S (mtr F)))).
 Proof. exact kirchhoff_symmetric_form. Qed.
 
@@ -157,6 +202,10 @@ Example C08_nonvacuous_multibranch :
   mb_taus_pos (8, 3 / 2, 3, 7 / 10, 2, 7, 1, 70) /\ mdet (mk 1 (/ 4) 0 0 1 0 0 (/ 5) 1) <> 0
   /\ conj (mk 0 (-1) 0 1 0 0 0 0 1) (mk 1 (/ 4) 0 0 1 0 0 (/ 5) 1) <> mk 1 (/ 4) 0 0 1 0 0 (/ 5) 1.
 Proof. exact nonvacuous_witness_mb. Qed.
+Example C08_nonvacuous_derivative_hypotheses :
+  (LogSqrtSpec (fun A => mscal (/ 2) (msub A mid)) /\ LogSqrtDiffAtId (fun A => mscal (/ 2) (msub A mid)))
+  /\ (0 < JJ (mk (/ 2) (/ 4) 0 0 (/ 3) 0 0 0 0) /\ (30 : R) <> 0 /\ 0 < gent_u 30 (I1 mzero) (JJ mzero)).
+Proof. exact nonvacuous_witness_diff. Qed.
 
 Print Assumptions C08_objective_neohookean_adagio.
 Print Assumptions C08_isotropic_linear_elastic_logarithmic.
@@ -165,3 +214,5 @@ Print Assumptions C08_rest_stress_gent.
 Print Assumptions C08_rest_j2_seth_hill.
 Print Assumptions C08_isotropic_phasefield.
 Print Assumptions C08_isotropic_multibranch.
+Print Assumptions C08_rest_stress_multibranch.
+Print Assumptions C08_kirchhoff_symmetric_gent.
